@@ -191,6 +191,54 @@ Proof.
   rewrite S3, S4. auto.
 Qed.
 
+(* unfolded readings of the per-record predicates *)
+Lemma accept_unfolded (r : rec R) :
+  rec_accept_ok r ->
+  (r_acc r = true <->
+   exists hv p', r_hast r = Fin hv /\ r_dens r = Fin p' /\
+                 r_u r < Rmin 1 (exp ((p' - r_lj_before r) + hv))) /\
+  ((r_hast r = NonFin \/ r_dens r = NonFin) -> r_acc r = false /\ r_ap r = 0).
+Proof.
+  intros [Hap Hacc]. split; [exact Hacc|]. intros H. split.
+  - destruct (r_acc r) eqn:E; [|reflexivity]. destruct Hacc as [Hacc _].
+    destruct (Hacc eq_refl) as (hv & p' & E1 & E2 & _). destruct H as [H|H]; congruence.
+  - rewrite Hap. unfold mh_prob. destruct H as [-> | ->]; [reflexivity|]. destruct (r_hast r); reflexivity.
+Qed.
+Lemma restore_unfolded (r : rec R) :
+  rec_restore_ok r -> r_acc r = false -> r_after r = r_before r /\ r_lj_after r = r_lj_before r.
+Proof. intros [H _] E. exact (H E). Qed.
+Lemma model_scaler_hastings_l (cfg : opcfg R) os x d : k_kind cfg = KScaler ->
+  snd (propose NumR cfg os x d) = Fin (opp NumR (nln NumR (scaler_s NumR (o_field os) (d_u d)))).
+Proof. intros H. unfold propose. rewrite H. reflexivity. Qed.
+Lemma model_sliding_hastings_l (cfg : opcfg R) os x d : k_kind cfg = KSliding ->
+  snd (propose NumR cfg os x d) = Fin 0.
+Proof. intros H. unfold propose. rewrite H. reflexivity. Qed.
+
+(* for the non-vacuity example: a draw u = 0 accepts any finite proposal, u = 1 rejects *)
+Lemma step_accepts_u0 cfgs st d x' hv p' :
+  propose NumR (lk cfgs (d_op d) (default_cfg NumR)) (lk (c_ops st) (d_op d) (default_op NumR)) (c_x st) d
+    = (x', Fin hv) ->
+  d_eval d x' = Fin p' -> d_uacc d = 0 ->
+  r_acc (snd (step NumR Rltb cfgs st d)) = true /\ r_after (snd (step NumR Rltb cfgs st d)) = x'.
+Proof.
+  intros Hp He Hu. unfold step. rewrite Hp, He, Hu. unfold mh.
+  assert (E : Rltb 0 (nexp NumR (nmin NumR (zero NumR) (add NumR (sub NumR p' (c_lj st)) hv))) = true).
+  { apply Rltb_true. cbn [nexp NumR]. apply exp_pos. }
+  rewrite E. cbn [snd r_acc r_after]. auto.
+Qed.
+Lemma step_rejects_u1 cfgs st d :
+  d_uacc d = 1 ->
+  r_acc (snd (step NumR Rltb cfgs st d)) = false /\ r_after (snd (step NumR Rltb cfgs st d)) = c_x st.
+Proof.
+  intros Hu. unfold step. destruct (propose NumR _ _ (c_x st) d) as [x' h]. rewrite Hu. unfold mh.
+  destruct h as [hv|]; [|cbn; auto]. destruct (d_eval d x') as [p'|]; [|cbn; auto].
+  assert (E : Rltb 1 (nexp NumR (nmin NumR (zero NumR) (add NumR (sub NumR p' (c_lj st)) hv))) = false).
+  { unfold Rltb. destruct (Rlt_dec _ _) as [r|]; [|reflexivity]. exfalso.
+    cbn [nexp zero NumR] in r. rewrite nmin_Rmin, exp_Rmin0 in r.
+    pose proof (Rmin_l 1 (exp (add NumR (sub NumR p' (c_lj st)) hv))). lra. }
+  rewrite E. cbn [snd r_acc r_after]. auto.
+Qed.
+
 (* ln form of the accept test (the form quoted in the design):  ln u < min(0, D + H) *)
 Lemma accept_ln_form u a : 0 < u -> (u < Rmin 1 (exp a) <-> ln u < Rmin 0 a).
 Proof.
@@ -635,3 +683,40 @@ Ltac dirichlet_id_tac :=
     | unfold Rdiv; rewrite ?Rmult_1_l; rewrite ln_Rinv by exact H; rewrite Ropp_involutive; apply exp_ln; exact H
     | unfold Rdiv; rewrite ?Rmult_1_l; rewrite exp_ln by exact H; apply Rinv_inv
     | unfold Rdiv; rewrite ?Rmult_1_l; rewrite exp_Ropp; rewrite exp_ln by exact H; apply Rinv_inv ].
+
+(* ======================================================================================== *)
+(* non-vacuity example (restated in prop/C15.v)                                              *)
+(* ======================================================================================== *)
+Definition ex_pi (x : list R) : ext R := Fin (- (lk x 0%nat 0 + lk x 1%nat 0 * lk x 1%nat 0)).
+Definition ex_cfgs : list (opcfg R) :=
+  [mkCfg KScaler (1/4) TBase [[0%nat]]; mkCfg KSliding (1/4) TBase [[1%nat]]].
+Definition ex_draw (k : nat) (u ua : R) : draws R :=
+  mkDraws k u 0 0 [] 0 0 true ex_pi ua ex_pi.
+Definition ex_ds : list (draws R) := [ex_draw 0 (1/2) 0; ex_draw 1 1 1; ex_draw 1 (1/4) 0].
+Definition ex_st : chain R := mkChain [1; 0] (-1) [mkOp (1/2) 0 0 0 0; mkOp 1 0 0 0 0].
+Lemma C15_example_l :
+  ex_pi (c_x ex_st) = Fin (c_lj ex_st) /\ List.Forall (faithful ex_pi) ex_ds /\
+  (let r := snd (step NumR Rltb ex_cfgs ex_st (ex_draw 0 (1/2) 0)) in
+   r_acc r = true /\ r_after r <> r_before r) /\
+  (let r := snd (step NumR Rltb ex_cfgs ex_st (ex_draw 1 1 1)) in
+   r_acc r = false /\ r_after r = r_before r).
+Proof.
+  split; [|split; [|split]].
+  - unfold ex_pi, ex_st; cbn [c_x c_lj lk]. f_equal. lra.
+  - repeat constructor.
+  - cbv zeta.
+    destruct (step_accepts_u0 ex_cfgs ex_st (ex_draw 0 (1/2) 0)
+                [1 * scaler_s NumR (1/2) (1/2); 0]
+                (opp NumR (nln NumR (scaler_s NumR (1/2) (1/2))))
+                (- (lk [1 * scaler_s NumR (1/2) (1/2); 0] 0%nat 0 +
+                    lk [1 * scaler_s NumR (1/2) (1/2); 0] 1%nat 0 * lk [1 * scaler_s NumR (1/2) (1/2); 0] 1%nat 0)))
+      as [H1 H2]; try reflexivity.
+    split; [exact H1|]. rewrite H2.
+    assert (Eb : r_before (snd (step NumR Rltb ex_cfgs ex_st (ex_draw 0 (1 / 2) 0))) = [1; 0]).
+    { unfold step. destruct (propose NumR _ _ _ _). destruct (mh NumR Rltb _ _ _ _) as [[? ?] ?]. reflexivity. }
+    rewrite Eb. intros E. injection E as E.
+    unfold scaler_s in E; cbn [add mul sub div one NumR] in E. lra.
+  - cbv zeta. destruct (step_rejects_u1 ex_cfgs ex_st (ex_draw 1 1 1) eq_refl) as [H1 H2].
+    split; [exact H1|]. rewrite H2.
+    unfold step. destruct (propose NumR _ _ _ _). destruct (mh NumR Rltb _ _ _ _) as [[? ?] ?]. reflexivity.
+Qed.
